@@ -312,7 +312,18 @@ type importJob struct {
 
 func importWorker(importWork chan importJob) {
 	for j := range importWork {
-		err := func() error {
+		err := func() (err error) {
+			// This goroutine belongs to the server, not to the request: a
+			// panic while decoding or applying a payload must come back to
+			// the caller as an error instead of ending the process. (Locks
+			// taken on the way are released by their deferred unlocks.)
+			defer func() {
+				if r := recover(); r != nil {
+					err = fmt.Errorf("importing roaring data: %v", r)
+				}
+			}()
+			// Look at every view before applying any: a request with a
+			// malformed view must not leave its other views imported.
 			for viewName, viewData := range j.req.Views {
 				if viewName == "" {
 					viewName = viewStandard
@@ -322,6 +333,17 @@ func importWorker(importWork chan importJob) {
 				if len(viewData) == 0 {
 					return fmt.Errorf("no data to import for view: %s", viewName)
 				}
+				if err := roaring.CheckRoaring(viewData); err != nil {
+					return errors.Wrapf(err, "malformed roaring data for view: %s", viewName)
+				}
+			}
+			for viewName, viewData := range j.req.Views {
+				if viewName == "" {
+					viewName = viewStandard
+				} else {
+					viewName = fmt.Sprintf("%s_%s", viewStandard, viewName)
+				}
+				// CheckRoaring has established that the data holds a header.
 				fileMagic := uint32(binary.LittleEndian.Uint16(viewData[0:2]))
 				if fileMagic == roaring.MagicNumber { // if pilosa roaring format
 					if err := j.field.importRoaring(j.ctx, viewData, j.shard, viewName, j.req.Clear); err != nil {
@@ -706,8 +728,15 @@ func (api *API) ClusterMessage(ctx context.Context, reqBody io.Reader) error {
 		return errors.Wrap(err, "reading body")
 	}
 
+	// The first byte says which message follows.
+	if len(body) == 0 {
+		return NewBadRequestError(errors.New("empty cluster message"))
+	}
 	typ := body[0]
 	msg := getMessage(typ)
+	if msg == nil {
+		return NewBadRequestError(fmt.Errorf("unknown cluster message type %d", typ))
+	}
 	err = api.server.serializer.Unmarshal(body[1:], msg)
 	if err != nil {
 		return errors.Wrap(err, "deserializing cluster message")
